@@ -78,7 +78,11 @@ def check(run):
     cstr = CString('')
     st_le = DWARFStructs(little_endian=True, dwarf_format=32, address_size=4)
     st_be = DWARFStructs(little_endian=False, dwarf_format=32, address_size=4)
-    il = {'le': st_le.Dwarf_initial_length(''), 'be': st_be.Dwarf_initial_length('')}
+    # initial-length decoders of struct sets configured for every DWARF version (spec: InitialLengthFor(bs, le, ver))
+    il = {}
+    for k, le in (('le', True), ('be', False)):
+        for ver in (2, 3, 4, 5):
+            il[(k, ver)] = DWARFStructs(little_endian=le, dwarf_format=32, address_size=4, dwarf_version=ver).Dwarf_initial_length('')
     arrs = {'u8': PrefixedArray(ULInt8(''), ULInt8('')), 'u16le': PrefixedArray(ULInt8(''), ULInt16('')),
             'u16be': PrefixedArray(ULInt8(''), UBInt16('')), 'uleb': PrefixedArray(ULInt8(''), ULEB128('')),
             'until0': RepeatUntilExcluding(lambda obj, ctx: obj == 0, ULInt8(''))}
@@ -176,19 +180,19 @@ def check(run):
                     if got != want:
                         run.mismatch('cstr.construct', 'pos%d' % pos, {'kind': kind, 'inp': inp, 'pos': pos}, want, got)
             elif kind == 'initlen':
-                for k, prim in il.items():
-                    e = exp[k]
+                for (k, ver), prim in il.items():
+                    e = exp[k]['v%d' % ver]
                     got = _run_prim(prim, data)
                     if e['ok']:
                         nt = True
                         want = ('ok', core.denote(e['len']), e['used'])
                     else:
                         want = ('trunc', None, None)     # truncated and reserved: the library's parse error
-                    if e['why'] == 'v5only' and got == ('trunc', None, None):
-                        continue      # reserved by DWARF 2-4, valid in DWARF 5: both answers accepted
+                    if e['both'] and got == ('trunc', None, None):
+                        continue      # a valid length in DWARF 5 that a reader may still refuse (it cannot know the version yet)
                     if got != want:
                         tag = 'reserved' if e['why'] == 'reserved' else ('is64' if e['is64'] else 'len32')
-                        run.mismatch('initlen.' + k, tag, {'kind': kind, 'inp': inp}, want, got)
+                        run.mismatch('initlen.' + k, '%s/v%d' % (tag, ver), {'kind': kind, 'inp': inp, 'dwarf_version': ver}, want, got)
             elif kind == 'arr':
                 for k, prim in [(k, p) for k, p in arrs.items()] + [(k, p) for k, ps in blocks.items() for p in ps]:
                     e = exp[k]
